@@ -114,7 +114,9 @@ func init() {
 				})
 			}
 			obs := func(t int) map[string]interface{} {
-				o := map[string]interface{}{"st": n1.Serf.VerifStateSample(), "inv": false, "fin": false, "ret": "", "rv": -1, "panic": ""}
+				raw, jl := n1.Serf.VerifStateRaw()
+				x := map[string]interface{}{"raw": raw, "jl": jl}
+				o := map[string]interface{}{"st": n1.Serf.VerifStateSample(), "inv": false, "fin": false, "ret": "", "rv": -1, "panic": "", "x": x}
 				if t > 0 && t <= nt {
 					o["inv"], o["fin"] = inv[t], fin[t]
 					if fin[t] {
